@@ -11,7 +11,7 @@
    Scripts follow
      cluster/calcium/pod.go   AddPod, RemovePod (withNodesPodLocked: no node => no lock)
      cluster/calcium/node.go  AddNode (no pod lock; Txn: plugin add, store add, rollback plugin remove)
-                              RemoveNode (pod lock; list workloads; Txn: store remove, plugin remove, EMPTY rollback)
+                              RemoveNode (pod lock; node fetched again; list workloads; Txn: store remove, plugin remove, EMPTY rollback)
      cluster/calcium/create.go  alloc under the pod lock, lock released, node fetched
                               again, workload recorded without any lock
      cluster/calcium/remove.go  pod lock, workload lock, usage decrement, record removed
@@ -156,13 +156,16 @@ Definition remove_node (n : string) : prog :=
     if negb (r_ok r) then Ret false else
     let p := hd_str (r_strs r) in
     Do (CLock (plock p)) (fun _ =>
-      Do (CListNodeWls n) (fun r2 =>
-        if r_ok r2 && is_nil (r_strs r2) then
-          Do (CRemoveNode n) (fun r3 =>
-            if negb (r_ok r3) then Do (CUnlock (plock p)) (fun _ => Ret false) else
-            Do (PRemoveNode n) (fun r4 =>           (* no rollback when this fails *)
-              Do (CUnlock (plock p)) (fun _ => Ret (r_ok r4))))
-        else Do (CUnlock (plock p)) (fun _ => Ret false)))).
+      (* fetched again under the lock (repair of the stale-record race); must still be in the locked pod *)
+      Do (CGetNode n) (fun r' =>
+        if negb (r_ok r' && String.eqb (hd_str (r_strs r')) p) then Do (CUnlock (plock p)) (fun _ => Ret false) else
+        Do (CListNodeWls n) (fun r2 =>
+          if r_ok r2 && is_nil (r_strs r2) then
+            Do (CRemoveNode n) (fun r3 =>
+              if negb (r_ok r3) then Do (CUnlock (plock p)) (fun _ => Ret false) else
+              Do (PRemoveNode n) (fun r4 =>           (* no rollback when this fails *)
+                Do (CUnlock (plock p)) (fun _ => Ret (r_ok r4))))
+          else Do (CUnlock (plock p)) (fun _ => Ret false))))).
 
 (* give the allocation back under the pod lock (create.go rollback) *)
 Definition rollback_alloc (n : string) : prog :=
